@@ -297,7 +297,7 @@ func Array[V any](arguments ...any) col.ArrayLike[V] {
 		// Convert the values to their real type.
 		size = uint(collection.GetSize())
 		array = class.Make(size)
-		var index int = 0
+		var index int = 1 // Arrays use ORDINAL based indexing.
 		var iterator = collection.GetIterator()
 		for iterator.HasNext() {
 			var value = iterator.GetNext().(V)
